@@ -19,7 +19,7 @@ META = {
                    "backward) from an arbitrary symbolic start lands exactly on q*.",
     "bounds": {"quick": "M<=2, B<=2 minibatch points; whitened and unwhitened strategies; ELBO and PLL; collapsed bound / NGD at M<=2, n=2",
                "thorough": "M<=2, B<=3; all variational distributions for the value identity"},
-    "outside": ["N x ELBO <= log p(y) for EVERY q(u) (needs log-det concavity reasoning; not attempted beyond the optimum identity)",
+    "outside": ["the tril-natural parameterisation under NGD (a step of size one is not exact there; its gradient is decided in C19)", "N x ELBO <= log p(y) for EVERY q(u) (needs log-det concavity reasoning; not attempted beyond the optimum identity)",
                 "GammaRobustVariationalELBO", "non-Gaussian likelihood terms (quadrature structure: C13)", "rounding"],
     "assumptions": ["reals for floats", "jitter of the strategies is part of the kernel evaluation (as in C14)"],
 }
@@ -130,12 +130,14 @@ def _optimal_natural(Gs, J, K, Y, sig, mz, mx, M, n):
     return vec, prec * Sym.const(-0.5), A
 
 
-def collapsed(S, M, n, via_ngd):
-    """at q*(u): N * ELBO = Titsias bound; one NGD step of size 1 from an arbitrary start reaches q*"""
+def collapsed(S, M, n, via_ngd, batch=0):
+    """at q*(u): N * ELBO = Titsias bound; one NGD step of size 1 from an arbitrary start reaches q*
+       (batch > 0: a batch of independent q(u) over the same model, each from its own arbitrary start)"""
     N = M + n
     Z, X = labels(0, M), labels(M, N)
     Gs, Gc = S.factor("g", N)
-    d = V.NaturalVariationalDistribution(M)
+    bs = (batch,) if batch else ()
+    d = V.NaturalVariationalDistribution(M, batch_shape=torch.Size(bs))
     table = torch.zeros(N, N)
     model = VGP(V.UnwhitenedVariationalStrategy, d, Z, table, make_mean("zero"))
     model.variational_strategy.variational_params_initialized.fill_(1)
@@ -163,22 +165,24 @@ def collapsed(S, M, n, via_ngd):
             CTX.assume(ge_formula(resid[i], Sym.const(0.0)))
         if via_ngd:
             # arbitrary symbolic start (precision factor R, theta1), one natural-gradient step of size one
-            Rs, Rc = S.factor("r", M, (), diag_lo=0.8, diag_hi=1.5, off_scale=0.4)
-            th1 = S.randn(M)
+            Rs, Rc = S.factor("r", M, bs, diag_lo=0.8, diag_hi=1.5, off_scale=0.4)
+            th1 = S.randn(*bs, M)
             T1 = S.sym_tensor(th1, "t")
-            with torch.no_grad():
-                d.natural_vec.copy_(th1)
-                d.natural_mat.copy_(-0.5 * Rc @ Rc.T)
-            S.put(d.natural_vec.data, T1)
-            S.put(d.natural_mat.data, (Rs @ Rs.T) * Sym.const(-0.5))
             for p in lik.parameters():
                 p.requires_grad_(False)
-            opt = gpytorch.optim.NGD([d.natural_vec, d.natural_mat], num_data=n, lr=1.0)
-            loss = -mll(model(X), y)
+            with torch.no_grad():
+                d.natural_vec.copy_(th1)
+                d.natural_mat.copy_(-0.5 * Rc @ Rc.transpose(-1, -2))
+            S.put(d.natural_vec.data, T1)
+            S.put(d.natural_mat.data, (Rs @ np.swapaxes(Rs, -1, -2)) * Sym.const(-0.5))
+            params = [d.natural_vec, d.natural_mat]
+            opt = gpytorch.optim.NGD(params, num_data=n, lr=1.0)
+            loss = -mll(model(X), y).sum()
             loss.backward()
             opt.step()
-            S.prove_eq(d.natural_vec.data, vec, "NGD step of size 1: natural_vec = optimal")
-            S.prove_eq(d.natural_mat.data, mat, "NGD step of size 1: natural_mat = optimal")
+            for b in (np.ndindex(*bs) if bs else [()]):
+                S.prove_eq(d.natural_vec.data[b], vec, "NGD step of size 1: natural_vec%s = optimal" % (list(b) if b else ""))
+                S.prove_eq(d.natural_mat.data[b], mat, "NGD step of size 1: natural_mat%s = optimal" % (list(b) if b else ""))
             return
         # set q(u) := q* and compare N * ELBO with the collapsed bound
         with torch.no_grad():
@@ -213,6 +217,7 @@ def scenarios(tier, seed):
         add("collapsed", M=1, n=2, via_ngd=False)
         add("collapsed", M=1, n=2, via_ngd=True)
         add("collapsed", M=2, n=2, via_ngd=True)
+        add("collapsed", M=2, n=1, via_ngd=True, batch=2)
     else:
         for obj in ("elbo", "pll"):
             for strat in ("variational", "unwhitened"):
@@ -224,4 +229,7 @@ def scenarios(tier, seed):
         for (M, n) in [(1, 1), (1, 2), (2, 2), (2, 1)]:
             add("collapsed", M=M, n=n, via_ngd=False)
             add("collapsed", M=M, n=n, via_ngd=True)
+        add("collapsed", M=2, n=1, via_ngd=True, batch=2)
+        add("collapsed", M=2, n=2, via_ngd=True, batch=2)
+        add("collapsed", M=1, n=2, via_ngd=True, batch=3)
     return out
